@@ -598,6 +598,10 @@ func (f *frame) doGo(x *ssa.Go, st *State) {
 	g := f.g
 	key, _, ci := f.calleeKey(&x.Call)
 	con := g.W.db.Contracts[key]
+	if f.goSites == nil {
+		f.goSites = map[string]*goSite{}
+	}
+	f.goSites[key] = &goSite{reach: st.reach, ci: ci}
 	if con == nil {
 		g.note("go %s: spawned goroutine has no contract; its effects are not part of the sequential VCs", key)
 		return
@@ -634,6 +638,78 @@ func (f *frame) doGo(x *ssa.Go, st *State) {
 		g.addObl("call-pre", name, props, st.reach, t, nil, cl.Src, x.Pos())
 	}
 	// ghost effects the spawner may rely on (declared in the closure contract as "ensures" are NOT assumed here)
+}
+
+type goSite struct {
+	reach string
+	ci    *closureInfo
+}
+
+// joinAtRecv: after a receive from the completion channel of a spawned closure, the closure's
+// postcondition holds (channel hand-off; listed as an assumption of the sequential VCs).
+func (f *frame) joinAtRecv(ch Val, rv Val, st *State) {
+	g := f.g
+	var con *Contract
+	if f.top {
+		con = f.con
+	} else {
+		con = g.W.db.Contracts[g.W.relName(f.fn)]
+	}
+	if con == nil {
+		return
+	}
+	for _, j := range con.Joins {
+		lv, ok := f.localsAt(f.curBlock)(j.ChanLocal)
+		if !ok || lv.T != ch.T {
+			continue
+		}
+		site := f.goSites[j.Closure]
+		cc := g.W.db.Contracts[j.Closure]
+		if site == nil || cc == nil || site.ci == nil {
+			g.errorf("%s: join %s: no go statement for %s on this path", con.Name, j.ChanLocal, j.Closure)
+			continue
+		}
+		pre := st.heap.clone()
+		env := &Env{g: g, vars: map[string]Val{}, heap: st.heap, old: pre}
+		for i, fv := range site.ci.fn.FreeVars {
+			if i < len(site.ci.bindings) {
+				v := site.ci.bindings[i]
+				v.Cell = isCellType(fv.Type())
+				env.vars[fv.Name()] = v
+			}
+		}
+		for _, m := range g.resolveMods(cc, env) {
+			switch {
+			case m.idx == "" || m.all:
+				// whole-array effects of the closure: conditional havoc of the array
+				old := g.arr(st.heap, m.arr, m.sort)
+				nv := g.havocArr(st.heap, m.arr, m.sort)
+				g.dirty[m.arr] = true
+				g.assume(fmt.Sprintf("(=> (not %s) (= %s %s))", site.reach, nv, old))
+			default:
+				g.noteWrite(m.arr, m.idx)
+				a := g.arr(st.heap, m.arr, m.sort)
+				hv := g.fresh("join")
+				g.declare(hv, m.sort)
+				g.assignArr(st.heap, m.arr, m.sort, fmt.Sprintf("(store %s %s (ite %s %s (select %s %s)))", a, m.idx, site.reach, hv, a, m.idx))
+			}
+		}
+		post := *env
+		post.heap = st.heap
+		guard := and(st.reach, site.reach)
+		if sortOf(rv.Ty) == "Bool" {
+			guard = and(guard, rv.T)
+		}
+		for _, cl := range cc.Ensures {
+			t, err := g.trBool(cl.E, &post)
+			if err != nil {
+				g.errorf("%s: join %s: %v", con.Name, j.Closure, err)
+				continue
+			}
+			g.assumeUnder(guard, t)
+		}
+		g.note("channel hand-off assumed in %s: after receiving from %s the postcondition of %s holds", con.Name, j.ChanLocal, j.Closure)
+	}
 }
 
 func (f *frame) runDeferred(d *deferred, st *State) {
